@@ -151,6 +151,10 @@ def run(ctx):
         ctx.traces += 1
         if r_.get("raised"):
             raised.append("%s[%d]: %s" % (n, k, r_.get("value")))
+        if r_.get("repeat_same") is False:
+            ctx.violation({"kind": "replay", "history": j, "threads": 1, "result": r_.get("value"),
+                           "how": "the same call made twice in a row (on the same out= buffer) returned different bits"},
+                          key="purity/repeat-differs/%s" % n)
         if not r_.get("args_same", True):
             ctx.violation({"kind": "replay", "history": j, "threads": 1, "arguments_changed": r_.get("args_changed"),
                            "how": "an argument was modified by the call (clean single-threaded process); positions "
